@@ -17,6 +17,7 @@ package main
 
 import (
 	"fmt"
+	"os"
 	"sort"
 	"strings"
 	"time"
@@ -39,11 +40,28 @@ type gcase struct {
 	mailmap *string
 	decoy   *string
 	runs    int
+	// round 4: per commit the committer signature and the two times (nil: committer = author, times ascending), and
+	// the kind of the tree entry ".mailmap" (0 regular, 1 executable, 2 symlink, 3 submodule)
+	extra  []cextra
+	mmMode int
+}
+
+// cextra is what a commit carries besides the author's name and e-mail: the property does not speak about any of it.
+type cextra struct {
+	cname, cemail string
+	aw, cw        int64
+}
+
+var mmModes = []filemode.FileMode{filemode.Regular, filemode.Executable, filemode.Symlink, filemode.Submodule}
+
+func whenOf(t int64) time.Time {
+	off := int(((t%53)+53)%53-26) * 1800
+	return time.Unix(t, 0).In(time.FixedZone("", off))
 }
 
 // carrierWith makes a real commit of a fresh in-memory repository whose tree holds the given .mailmap
 // (nil: an empty tree).
-func carrierWith(mailmap *string) *object.Commit {
+func carrierWith(mailmap *string, mode int) *object.Commit {
 	st := memory.NewStorage()
 	tree := &object.Tree{}
 	if mailmap != nil {
@@ -61,7 +79,11 @@ func carrierWith(mailmap *string) *object.Commit {
 		if err != nil {
 			panic(err)
 		}
-		tree.Entries = append(tree.Entries, object.TreeEntry{Name: ".mailmap", Mode: filemode.Regular, Hash: bh})
+		if mode == 3 {
+			// a submodule entry: the hash is a commit of another repository, not an object of this one
+			bh = plumbing.NewHash("5ca1ab1e5ca1ab1e5ca1ab1e5ca1ab1e5ca1ab1e")
+		}
+		tree.Entries = append(tree.Entries, object.TreeEntry{Name: ".mailmap", Mode: mmModes[mode], Hash: bh})
 	}
 	o := st.NewEncodedObject()
 	if err := tree.Encode(o); err != nil {
@@ -86,10 +108,10 @@ func carrierWith(mailmap *string) *object.Commit {
 		panic(err)
 	}
 	f, err := c.File(".mailmap")
-	if (err == nil) != (mailmap != nil) {
+	if (err == nil) != (mailmap != nil && mode != 3) {
 		panic("carrier commit: unexpected .mailmap lookup result")
 	}
-	if mailmap != nil {
+	if mailmap != nil && mode != 3 {
 		if txt, err := f.Contents(); err != nil || txt != *mailmap {
 			panic("carrier commit: .mailmap does not read back")
 		}
@@ -100,25 +122,26 @@ func carrierWith(mailmap *string) *object.Commit {
 var plainCarrier *object.Commit
 var carrierCache = map[string]*object.Commit{}
 
-func carrierFor(mailmap *string) *object.Commit {
+func carrierFor(mailmap *string, mode int) *object.Commit {
 	if mailmap == nil {
 		return plainCarrier
 	}
-	if c, ok := carrierCache[*mailmap]; ok {
+	key := string(rune('0'+mode)) + *mailmap
+	if c, ok := carrierCache[key]; ok {
 		return c
 	}
 	if len(carrierCache) > 4096 {
 		carrierCache = map[string]*object.Commit{}
 	}
-	c := carrierWith(mailmap)
-	carrierCache[*mailmap] = c
+	c := carrierWith(mailmap, mode)
+	carrierCache[key] = c
 	return c
 }
 
 func commitsOf(g *gcase) []*object.Commit {
 	res := make([]*object.Commit, len(g.sigs))
-	last := carrierFor(g.mailmap)
-	other := carrierFor(g.decoy)
+	last := carrierFor(g.mailmap, g.mmMode)
+	other := carrierFor(g.decoy, 0)
 	for i, s := range g.sigs {
 		c := *other // keeps the object store of the carrier
 		if i == len(g.sigs)-1 {
@@ -127,6 +150,14 @@ func commitsOf(g *gcase) []*object.Commit {
 		c.Hash = plumbing.NewHash(fmt.Sprintf("%040x", i+1))
 		c.Author = object.Signature{Name: s.name, Email: s.email, When: time.Unix(1500000000+int64(i), 0)}
 		c.Committer = c.Author
+		if g.extra != nil {
+			x := g.extra[i]
+			c.Author.When = whenOf(x.aw)
+			c.Committer = object.Signature{Name: x.cname, Email: x.cemail, When: whenOf(x.cw)}
+			if x.cname == "" && x.cemail == "" && x.cw == 0 {
+				c.Committer = object.Signature{} // the zero value: a commit object without committer
+			}
+		}
 		res[i] = &c
 	}
 	return res
@@ -219,7 +250,7 @@ func run(g *gcase) Sx {
 		}
 	}
 	var mmField []Sx
-	if g.mailmap != nil {
+	if g.mailmap != nil && g.mmMode != 3 {
 		var table map[string]object.Signature
 		if _, p := Catch(func() { table = c16.ParseMailmap(*g.mailmap) }); p {
 			mmField = append(mmField, T("mmpanic"))
@@ -268,6 +299,10 @@ func emitCase(c *Config, kind string, g *gcase) {
 	overlap := false
 	for i, s := range g.sigs {
 		cs[i] = L(str(s.name), str(s.email))
+		if g.extra != nil {
+			x := g.extra[i]
+			cs[i] = L(str(s.name), str(s.email), str(x.cname), str(x.cemail), I64(x.aw), I64(x.cw))
+		}
 		le, ln := strings.ToLower(s.email), strings.ToLower(s.name)
 		if seenE[le] || seenE[ln] {
 			overlap = true
@@ -279,6 +314,9 @@ func emitCase(c *Config, kind string, g *gcase) {
 	fields := []Sx{T("kind", A(kind)), T("exact", B(g.exact)), T("commits", cs...)}
 	if g.mailmap != nil {
 		fields = append(fields, T("mailmap", str(*g.mailmap)))
+		if g.mmMode != 0 {
+			fields = append(fields, T("mmode", I(g.mmMode)))
+		}
 		// non-trivial: the mailmap has an entry that touches an author of the list
 		if table, ok := safeParse(*g.mailmap); ok && !g.exact {
 			for k, v := range table {
@@ -424,7 +462,7 @@ func attrExhaustive(c *Config) {
 func main() {
 	c := Setup()
 	defer c.Close()
-	plainCarrier = carrierWith(nil)
+	plainCarrier = carrierWith(nil, 0)
 	if c.Replay != "" {
 		for _, cs := range c.ReplayCases() {
 			kind, _ := cs.Field("kind")
@@ -450,6 +488,15 @@ func main() {
 			cm, _ := cs.Field("commits")
 			for _, x := range cm.Args() {
 				g.sigs = append(g.sigs, sig{unstr(x.List[0]), unstr(x.List[1])})
+				if len(x.List) >= 6 {
+					g.extra = append(g.extra, cextra{unstr(x.List[2]), unstr(x.List[3]), int64(x.List[4].Int()), int64(x.List[5].Int())})
+				}
+			}
+			if len(g.extra) != 0 && len(g.extra) != len(g.sigs) {
+				panic("replay: commits with and without committer in one case")
+			}
+			if m, ok := cs.Field("mmode"); ok {
+				g.mmMode = m.Args()[0].Int()
 			}
 			if m, ok := cs.Field("mailmap"); ok {
 				s := unstr(m.Args()[0])
@@ -466,6 +513,11 @@ func main() {
 			}
 			emitCase(c, k, g)
 		}
+		return
+	}
+	if os.Getenv("VERIF_C16_ONLY") == "r4" {
+		// development aid: the round-4 streams alone
+		round4Streams(c)
 		return
 	}
 	if c.Thorough() {
@@ -504,4 +556,5 @@ func main() {
 	mailmapStreams(c)
 	scaleStreams(c)
 	seqStreams(c)
+	round4Streams(c)
 }
